@@ -195,6 +195,8 @@ func (x *world) open() error {
 	}
 	x.noteClient()
 	x.client = simchain.NewClient(x.node, x.birthday, int(x.p.C("queue_buf", 20)))
+	x.client.AsyncRescan = x.p.C("async_rescan", 0) == 1
+	x.client.BtcdStyleRescan = x.p.C("btcd_rescan", 0) == 1
 	for _, k := range core.SortedKeys(x.pendingFail) {
 		x.client.FailNext[k] = x.pendingFail[k]
 	}
